@@ -425,6 +425,9 @@ pub enum BlockEdit {
     FeeTxDropOutput,
     FeeTxRedirect,
     FeeTxInflate,
+    /// the rebroadcast (ATR) transactions of the block pay their outputs to another key; rebroadcast
+    /// hash, merkle root and signature are recomputed from the edited content (not in BLOCK_EDITS)
+    AtrRedirect,
 }
 pub const PAYOUT_EDITS: [BlockEdit; 4] = [BlockEdit::FeeTxExtraOutput, BlockEdit::FeeTxDropOutput, BlockEdit::FeeTxRedirect, BlockEdit::FeeTxInflate];
 pub const BLOCK_EDITS: [BlockEdit; 10] = [
@@ -450,6 +453,20 @@ pub fn apply_block_edit(b: &mut Block, e: BlockEdit, creator: &KeyPair, parent_d
         BlockEdit::PrevUnpaid => b.previous_block_unpaid = b.previous_block_unpaid.wrapping_add(7),
         BlockEdit::TotalFeesUnsigned => b.total_fees = b.total_fees.wrapping_add(5),
         BlockEdit::AvgTotalFees => b.avg_total_fees = b.avg_total_fees.wrapping_add(9),
+        BlockEdit::AtrRedirect => {
+            let mut any = false;
+            for t in b.transactions.iter_mut().filter(|t| t.transaction_type == TransactionType::ATR) {
+                for o in t.to.iter_mut().filter(|o| o.slip_type == SlipType::ATR) {
+                    o.public_key = key(6).0;
+                    any = true;
+                }
+            }
+            if !any {
+                return false;
+            }
+            re_sign(b, creator, true);
+            return true;
+        }
         BlockEdit::CreatorSig => {
             let other = key(7);
             b.generate_pre_hash();
